@@ -199,6 +199,101 @@ func cmdDrive(args []string) {
 		}
 	}
 
+	// ---- supplementary free-running leg (thorough tier) --------------------------
+	freeSummary := map[string]interface{}{"ran": false}
+	if *tier == "thorough" && *raceBin != "" {
+		fsec := *secs / 4
+		if fsec > 180 {
+			fsec = 180
+		}
+		if fsec < 20 {
+			fsec = 20
+		}
+		const nFree = 6
+		outs := make([]*FreeStats, nFree)
+		var fwg sync.WaitGroup
+		for i := 0; i < nFree; i++ {
+			fwg.Add(1)
+			go func(i int) {
+				defer fwg.Done()
+				out := filepath.Join(*work, fmt.Sprintf("free-%d.json", i))
+				logp := filepath.Join(*work, fmt.Sprintf("freerace-%d", i))
+				env := []string{"GORACE=halt_on_error=0 log_path=" + logp, "VERIF_RACE_LOG=" + logp, "GOMAXPROCS=16"}
+				_, code := runCmd(env, time.Duration(fsec+600)*time.Second, *raceBin, "free", "-prop", *prop, "-tier", *tier,
+					"-seed", strconv.FormatInt(*seed+int64(i)*stride+stride/4, 10), "-n", "100000000", "-maxsec", fmt.Sprint(fsec), "-out", out)
+				if code != 0 && code != 66 {
+					return
+				}
+				b, err := os.ReadFile(out)
+				if err != nil {
+					return
+				}
+				var st FreeStats
+				if json.Unmarshal(b, &st) == nil {
+					outs[i] = &st
+				}
+			}(i)
+		}
+		fwg.Wait()
+		fr, fo, fm, fq := 0, 0, 0, 0
+		suspect := map[int64]string{}
+		for _, st := range outs {
+			if st == nil {
+				trouble("a free-running worker failed")
+			}
+			fr += st.Runs
+			fo += st.Ops
+			for _, m := range st.Mismatches {
+				if m.V.Prop == *prop {
+					fm++
+					if _, ok := suspect[m.Seed]; !ok {
+						suspect[m.Seed] = m.V.Invariant + ": " + m.V.Detail
+					}
+				}
+			}
+			for _, sd := range st.RaceSeeds {
+				fq++
+				if _, ok := suspect[sd]; !ok && (*prop == "C12" || b.raceFilter != "") {
+					suspect[sd] = "race report"
+				}
+			}
+		}
+		// whatever the leg saw is re-searched under the simulator; the leg
+		// itself decides nothing
+		var sds []int64
+		for sd := range suspect {
+			sds = append(sds, sd)
+		}
+		sort.Slice(sds, func(a, c int) bool { return sds[a] < sds[c] })
+		onlyFree := 0
+		for k, sd := range sds {
+			if k >= 4 {
+				break
+			}
+			j := &workerJob{seed: sd, n: 1}
+			runWorker(1000+k, j, *prop, *tier, *bin, *raceBin, *work, replayDir, 0)
+			jr := &workerJob{race: true, seed: sd, n: 1}
+			runWorker(2000+k, jr, *prop, *tier, *bin, *raceBin, *work, replayDir, 0)
+			hit := false
+			for _, x := range []*workerJob{j, jr} {
+				if x.stats != nil {
+					if len(x.stats.Violations) > 0 || len(x.stats.RaceSeeds) > 0 {
+						hit = true
+					}
+					found = append(found, x.stats.Violations...)
+					raceSeeds = append(raceSeeds, x.stats.RaceSeeds...)
+				}
+			}
+			if !hit {
+				onlyFree++
+				fmt.Printf("FREE-RUNNING-LEG-ONLY seed=%d %s: seen with free-running goroutines on the real sync.Pool, not found by the simulator on the same plan; not counted (best effort)\n", sd, suspect[sd])
+			}
+		}
+		freeSummary = map[string]interface{}{"ran": true, "runs": fr, "ops": fo, "oracle_mismatches": fm, "race_reports": fq,
+			"seeds_re_searched_under_the_simulator": len(sds), "seen_only_in_this_leg_not_counted": onlyFree,
+			"what": "same plans, free-running goroutines, real sync.Pool and Go scheduler, race build, GOMAXPROCS=16; schedule-independent oracles only; cross-check of the SimPool stub; decides nothing on its own"}
+	}
+
 	// ---- confirm what the workers found in a fresh process -------------------
 	var reported []FoundViolation
 	sort.SliceStable(found, func(a, c int) bool { return found[a].Seed < found[c].Seed })
@@ -336,6 +431,7 @@ func cmdDrive(args []string) {
 		"race_reports_confirmed":                         raceReported,
 		"race_reports_not_involving_this_property":       raceIgnored,
 		"determinism_spot_check":                         detDetail,
+		"free_running_leg":                               freeSummary,
 		"known_findings_matched":                         countKnown(reported),
 		"real_vs_stub": map[string]string{
 			"redact (all packages)":           "real, built from /repo working tree with -tags verif",
